@@ -32,17 +32,17 @@ Definition kind_dirties (k : jkind) : bool :=
   end.
 
 (* revert() of this kind goes through a journalling setter *)
-Definition kind_rejournals (k : jkind) : bool := match k with KsizeChange => true | _ => false end.
+Definition kind_rejournals (k : jkind) : bool := match k with KsizeChange => code_rejournal | _ => false end.
 
 Lemma kind_dirties_spec e : kind_dirties (kind_of e) = match dirtied e with Some _ => true | None => false end.
 Proof. destruct e; reflexivity. Qed.
 
 Lemma kind_rejournals_spec e d : kind_rejournals (kind_of e) = false ->
   undo_dirt e d = match dirtied e with Some a => ddec a d | None => d end.
-Proof. destruct e; cbn; try reflexivity; discriminate. Qed.
+Proof. destruct e; cbn [kind_rejournals kind_of undo_dirt dirtied]; intros H; try rewrite H; reflexivity. Qed.
 
-Lemma kind_rejournals_size a p d : undo_dirt (ESize a p) d = ddec a (dinc a d).
-Proof. reflexivity. Qed.
+Lemma kind_rejournals_size a p d : code_rejournal = true -> undo_dirt (ESize a p) d = ddec a (dinc a d).
+Proof. intros H. cbn [undo_dirt]. rewrite H. reflexivity. Qed.
 
 Lemma all_kinds_complete k : In k all_kinds.
 Proof. destruct k; cbn; tauto. Qed.
